@@ -79,6 +79,7 @@ inline std::string parse(const Bytes & f, Bytes & stream, std::vector<uint32_t> 
         const uint8_t * q = f.data() + pos; uint32_t osz = get32(q + 8), ty = get32(q + 12), us = get32(q + 24); uint16_t m = get16(q + 16);
         if (get16(q + 4) != 16 || get16(q + 6) != 1 || ty != 10) return "bad container header at " + std::to_string(pos);
         if (osz < 32 || pos + osz > f.size()) return "container overruns file at " + std::to_string(pos);
+        if (us > (64u << 20)) return "absurd uncompressed size at " + std::to_string(pos);
         Bytes pl;
         if (m == 0) pl.assign(f.data() + pos + 32, f.data() + pos + osz);
         else if (m == 2) { pl.resize(us); uLong n = us; Bytes dummy(1); int rc = uncompress(us ? pl.data() : dummy.data(), &n, f.data() + pos + 32, osz - 32); if (rc != Z_OK || n != us) return "inflate failed at " + std::to_string(pos); }
